@@ -16,6 +16,9 @@ ASSUMPTIONS = [
     "one label of Model.Tdc per shared-state access of conn_traditional.go is the right atomicity (Go memory model, mutex/channel/atomic semantics)",
     "the harness realises an action list deterministically through a fake NetConn (gated Write, fed Read) and the verif schedule point tdc.exchange.written",
     "net.Conn honours Close by failing a pending Read",
+    "the DoQ write-fault cases see quic-go only through harness/quicx (Write delivers or fails, Close is the FIN, the fake server answers on each stream "
+    "the query that arrived on that stream); they run with GOMAXPROCS(1) and the collector off (both restored afterwards) so that sync.Pool hands "
+    "buffers out in a fixed order, and the client calls stream.SetDeadline between building its payload and writing it (the schedule point the harness uses)",
 ]
 TRUSTED_BASE = [
     "hand-written LTS coq/Model/Tdc.v tied to pkg/upstream/transport/conn_traditional.go by scripted schedules run on the real connection "
@@ -26,11 +29,18 @@ TRUSTED_BASE = [
 RULE = ("(ID-multiplexed connection) catalogue of hand-written schedules (permuted/duplicated/stray replies, colliding caller ids 0/0xFFFF, wire-id wrap at 65535, "
         "forced skipping of taken ids, late replies to cancelled/finished calls) for TCP and UDP framing + seeded random schedules of "
         "reserve/start/write-end/hold/release/feed/stray/EOF/close/cancel over 2-13 calls that respect the property's environment clause; "
-        "non-trivial = at least 2 calls started and at least 2 frames fed; distinct = distinct Gallina literal (script + observation). (non-pipelined transport) catalogue + seeded random schedules on the real ReuseConnTransport over fake connections: scripted dials, gated writes, replies/surplus frames/EOF per connection, cancels, holds before the wait, retries onto pooled or fresh connections, transport Close")
+        "non-trivial = at least 2 calls started and at least 2 frames fed; distinct = distinct Gallina literal (script + observation). (non-pipelined transport) catalogue + seeded random schedules on the real ReuseConnTransport over fake connections: scripted dials, gated writes, replies/surplus frames/EOF per connection, cancels, holds before the wait, retries onto pooled or fresh connections, transport Close. "
+        "(DoH / DoQ id handling) single exchanges, batches of 2-6 concurrent exchanges on one upstream / one QUIC connection, replies held by the caller, and "
+        "(DoQ write fault, ids idw:N) on one fake QUIC connection (harness/quicx) 0-2 exchanges whose stream.Write fails (reset by the peer, write deadline, connection lost) followed by "
+        "2-3 concurrent exchanges that all build their payload before the first one writes it (every payload of a case in one size class of the byte pool, "
+        "random write order), the fake server answering per stream what arrived on it; non-trivial = at least one failed write and at least 2 concurrent calls")
 LEVEL_TEXT = ("Theorems for ALL label lists (all schedules of callers, reader, server, faults, cancellation) of the connection LTS: "
               "a successful call returns a reply produced for that very call with the caller's id restored (under the property's scope clause), "
               "wire ids of simultaneously registered calls differ, the allocation loop hands out a free id and only wraps after 2^16, "
-              "strays and duplicates change no call. The LTS is replayed against the real TraditionalDnsConn on every run.")
+              "strays and duplicates change no call. The LTS is replayed against the real TraditionalDnsConn on every run. "
+              "The DoQ client is not modelled as an LTS; it is run on sampled scenarios (incl. a failed stream write followed by exchanges with interleaved payload building) "
+              "and every successful call must have sent its own question with id 0 and got the answer to it back under its own id (Judge.IdZero.w_spec).")
 LEVEL_NOTE = ("Covers the ID-multiplexed connection (UDP, pipelined TCP/DoT; Model.Tdc) and the non-pipelined transport (Model.Reuse, under the one-reply-per-query "
               "assumption the property states for it). DoH and DoQ put id 0 on the wire and restore the caller's id; their request/stream pairing is net/http / quic-go "
-              "(trusted, not modelled). No axioms.")
+              "(trusted, not modelled); that a fault in one DoQ exchange (a failed stream write) does not leak a buffer into later exchanges is checked by test on the "
+              "write-fault cases only, with harness/quicx standing in for quic-go. No axioms.")
